@@ -9,10 +9,11 @@ IMPORTS = ("From Coq Require Import List Ascii String NArith ZArith Bool.\n"
            "From Galaxy.Corr Require Import CorrBase C11c.\n")
 
 THEOREMS = ["key_injective", "parse_format", "list_release_roundtrip", "blank_type_is_statefulset", "release_exact",
-            "release_exact_owner", "pages_partition", "pages_beyond_empty", "sort_by_ip_permutation"]
+            "release_exact_owner", "pages_partition", "pages_beyond_empty", "sort_by_ip_permutation",
+            "batch_release_exact", "batch_roundtrip_any_order"]
 REFUTED = ["parse_format_refuted_pool_underscore", "list_release_refuted_pool_underscore",
            "list_release_refuted_omitted_type", "list_release_refuted_null_type"]
-DEPS = ["Strs", "Keys", "Page", "IpApi", "KeysP", "PageP", "CorrBase", "C11c", "C11"]
+DEPS = ["Strs", "Keys", "Page", "IpApi", "KeysP", "PageP", "IpApiP", "CorrBase", "C11c", "C11"]
 
 K4_TAG = "c11-pool-annotation-contains-underscore"
 KNOWN_FINDINGS = [
@@ -32,7 +33,10 @@ MANIFEST = {
             "list_release_roundtrip + blank_type_is_statefulset (every listed entry posted back addresses the same key; an omitted "
             "appType means statefulset), release_exact / release_exact_owner (a release frees x only if x's current key equals the "
             "posted key - never another owner's IP), pages_partition / pages_beyond_empty / sort_by_ip_permutation (pages of the "
-            "IP-sorted list partition it for every size). The old defects F5/F6 keep their refutation witnesses for the old flags. "
+            "IP-sorted list partition it for every size), batch_release_exact / batch_roundtrip_any_order (a release request with "
+            "SEVERAL entries - Model/IpApi.v post_entries - frees only posted IPs, each only under the key some entry posted with it "
+            "denotes, and releases every entry that denotes the current key of its IP whatever the order of the entries, an omitted "
+            "appType meaning statefulset wherever the entry stands). The old defects F5/F6 keep their refutation witnesses for the old flags. "
             "Tied to the code by generated pods/kinds/pools through the real FormatKey/ParseKey and the real HTTP ListIPs/ReleaseIPs "
             "controllers wired to the real plugin, compared field by field with the model.",
     "note": "trusted: Coq kernel (no axioms); ASCII names only in the model (the differ sends non-ASCII too and then only requires "
